@@ -80,6 +80,15 @@ def check_spec(acc, spec, tier):
     if not small and (na > 20000 or SC.family_of(spec) in ("F1", "F2")):
         return
     sols = U.brute(spec)
+    # tight stacks: the consistency algorithm is also invoked with the stack (almost) full (three-way split from height-3)
+    if small and na <= 40:
+        for stack in (3, 4, 5, 6):
+            eng = E.Engine(spec, "shaving", stack=stack)
+            root, ctr = E.explore(eng, acc, Mon(sols), heuristics=("mid",), max_states=20000, orders="first")
+            acc.c["states"] += ctr["states"]
+            acc.c["transitions"] += ctr["transitions"] + 2 * ctr["states"]
+            acc.c["explorations"] += 1
+            acc.c["nt_tight_stack_refusals"] += ctr.get("refused", 0)
     for cons in ("shaving", "bc"):
         for h in ((("min", "max") if cons == "shaving" else ("mid",)) if tier == "quick" else ("min", "max", "split_low", "mid")):
             eng = E.Engine(spec, cons)
@@ -89,7 +98,7 @@ def check_spec(acc, spec, tier):
             acc.c["explorations"] += 1
             if ctr["capped"]:
                 acc.caps.append(f"state cap hit on {spec['tag']}")
-            elif root != tuple(sorted(sols)):
+            elif root != tuple(sorted(sols)) and not ctr.get("refused"):
                 acc.violation(f"{SC.con_types(spec)}:engine-solutions-differ:{cons}", {"spec": SC.short(spec), "h": h, "got": len(root), "expected": len(sols)})
     # whole-solver differential: same solutions, same optima
     nv = len(spec["vars"])
@@ -139,7 +148,8 @@ def run(tier, seed):
                 "and compared (containment, no solution lost, stack height and lower levels untouched, status soundness); plus "
                 "whole-solver differential runs; non-trivial = state in which shaving prunes more than BC or refutes the state",
         "problems": nspecs, "exhaustive": True,
-        "bounds": f"tier={tier}: all variable orders on problems with <= {LIMIT[tier]} assignments and <= 5-6 domains; first-open "
+        "tight_stack_refusals_observed": acc.c["nt_tight_stack_refusals"],
+        "bounds": f"tier={tier}: stack heights 3-6 with the three-way split on problems with <= 40 assignments; all variable orders on problems with <= {LIMIT[tier]} assignments and <= 5-6 domains; first-open "
                   "order on F3/F4 problems up to 20000 assignments",
     }
     return finish(PROP, tier, seed, "model_checking", acc, cov, ["brute-force solutions of mc/universe.py"],
